@@ -16,6 +16,7 @@ import (
 )
 
 type retSite struct {
+	label string
 	reach string
 	vals  []*val
 	h     heap
@@ -53,6 +54,7 @@ type fnCtx struct {
 	loopMod        map[*ssa.BasicBlock][]string
 	loopNames      map[*ssa.BasicBlock]map[string]*val
 	loopEntryNames map[*ssa.BasicBlock]map[string]*val
+	loopGLEntry map[*ssa.BasicBlock]string
 	curH           heap
 	curAC          string
 	curR           string
@@ -63,6 +65,8 @@ type fnCtx struct {
 	mutexes  map[string][2]string // key -> (ref, off) of mutexes locked/unlocked (recorded at the top-level ctx)
 	callPath string
 	specMode bool
+	allocNames map[string]bool
+	stackRefs  []string
 }
 
 type deferred struct {
@@ -76,7 +80,7 @@ func (g *gen) newFnCtx(fn *ssa.Function, pfx string, depth int, parent *fnCtx) *
 	return &fnCtx{g: g, fn: fn, pfx: pfx, depth: depth, parent: parent, vals: map[ssa.Value]*val{}, mutexes: map[string][2]string{},
 		reach: map[*ssa.BasicBlock]string{}, heapOut: map[*ssa.BasicBlock]heap{}, acOut: map[*ssa.BasicBlock]string{},
 		loopOrd: map[*ssa.BasicBlock]int{}, loopEntryH: map[*ssa.BasicBlock]heap{}, loopEntryAC: map[*ssa.BasicBlock]string{},
-		loopHdrH: map[*ssa.BasicBlock]heap{}, loopMod: map[*ssa.BasicBlock][]string{}, loopNames: map[*ssa.BasicBlock]map[string]*val{}, loopEntryNames: map[*ssa.BasicBlock]map[string]*val{},
+		loopHdrH: map[*ssa.BasicBlock]heap{}, loopMod: map[*ssa.BasicBlock][]string{}, loopNames: map[*ssa.BasicBlock]map[string]*val{}, loopEntryNames: map[*ssa.BasicBlock]map[string]*val{}, loopGLEntry: map[*ssa.BasicBlock]string{},
 		locals: map[string][]localBind{}}
 }
 
@@ -131,6 +135,7 @@ func (fc *fnCtx) bindParamsFresh() {
 		v := g.newVal(fc.pfx+p.Name(), p.Type())
 		fc.vals[p] = v
 		fc.wfRefAssume(v, fc.entryAC, "")
+		fc.classAssume(v, p.Type(), "")
 		g.replay.params = append(g.replay.params, replayParam{p.Name(), p.Type(), v})
 	}
 	if recv := fc.fn.Signature.Recv(); recv != nil && len(fc.fn.Params) > 0 {
@@ -633,7 +638,9 @@ func (fc *fnCtx) loopHeader(b *ssa.BasicBlock, c *contract) {
 	effects, bases, _ := fc.loopEffects(b)
 	if effects && g.loopHavocAll[b] {
 		// the body calls code without a frame: nothing about the heap survives the loop except what the invariants say
-		fc.havocHeap(fmt.Sprintf("loop%d", n), "", !loopTouchesLocks(b))
+		glEntry := g.bind("GL_e", heapSort("Int"), fc.curH["GL"])
+		fc.havocHeap(fmt.Sprintf("loop%d", n), "", true)
+		fc.loopGLEntry[b] = glEntry
 	} else if effects {
 		var mod []string
 		for _, bv := range bases {
@@ -700,6 +707,7 @@ func (fc *fnCtx) loopHeader(b *ssa.BasicBlock, c *contract) {
 		}
 		v := g.newVal(fc.pfx+phi.Name()+"_"+phi.Comment, phi.Type())
 		fc.wfRefAssume(v, fc.curAC, fc.curR)
+		fc.classAssume(v, phi.Type(), fc.curR)
 		fc.vals[phi] = v
 		if phi.Comment != "" {
 			hmap[phi.Comment] = v
@@ -786,6 +794,11 @@ func (fc *fnCtx) backEdge(b, s *ssa.BasicBlock, c *contract) {
 				cond: fmt.Sprintf("(forall ((r Int)) (=> %s %s))", keep, and(parts...)), pos: fc.posOf(s)})
 		}
 	}
+	if gle, ok := fc.loopGLEntry[s]; ok && fc.curH["GL"] != gle && g.lite {
+		// every iteration is lock-balanced (the header assumed the entry lock state)
+		g.oblige(obligation{name: fmt.Sprintf("lock:%s:loop%d:balanced-iteration", fc.oblFn(), n), kind: "lock", guard: e,
+			cond: fmt.Sprintf("(forall ((r Int)) (=> (< r %s) (= (select %s r) (select %s r))))", fc.loopEntryAC[s], fc.curH["GL"], gle), pos: fc.posOf(s)})
+	}
 	// range loops: index stays in range automatically (no obligation needed: idx' = idx+1 < len is the loop condition)
 	if c == nil {
 		return
@@ -860,11 +873,22 @@ func (w *world) srcAt(pos token.Pos, class string) string {
 			ok = class == "star" && x.Star == pos
 		case *ast.BinaryExpr:
 			ok = class == "binop" && x.OpPos == pos
+		case *ast.TypeAssertExpr:
+			ok = class == "typeassert" && x.Lparen == pos
+		case *ast.ReturnStmt:
+			ok = class == "return" && x.Return == pos
 		}
 		if ok {
 			var buf bytes.Buffer
 			printer.Fprint(&buf, w.fset, n)
 			s := strings.Join(strings.Fields(buf.String()), "")
+			if class == "return" {
+				s = strings.TrimPrefix(s, "return")
+				if len(s) > 40 {
+					s = s[:40]
+				}
+				return "return(" + s + ")"
+			}
 			if len(s) > 64 {
 				s = s[:64]
 			}
@@ -882,7 +906,7 @@ func (g *gen) finishTop(fc *fnCtx) {
 		}
 		for _, key := range sortedKeys(fc.mutexes) {
 			m := fc.mutexes[key]
-			g.oblige(obligation{name: fmt.Sprintf("lock:%s:balance:%s@ret%d", fnKeyQ(fc.fn), key, i+1), kind: "lock", guard: rs.reach,
+			g.oblige(obligation{name: fmt.Sprintf("lock:%s:balance:%s@%s", fnKeyQ(fc.fn), key, rs.lbl(i)), kind: "lock", guard: rs.reach,
 				cond: fmt.Sprintf("(= %s %s)", sel(rs.h["GL"], m[0], m[1]), sel(fc.entryHeap["GL"], m[0], m[1]))})
 		}
 	}
@@ -906,9 +930,9 @@ func (g *gen) finishTop(fc *fnCtx) {
 			for _, p := range fc.fn.Params {
 				pn = append(pn, p.Name())
 			}
-			g.oblige(obligation{name: fmt.Sprintf("post:%s:%s@ret%d", fnKeyQ(fc.fn), lbl, i+1), kind: "post", guard: rs.reach, cond: f, show: sc.shows, goPost: e.expr, goPostParams: pn})
+			g.oblige(obligation{name: fmt.Sprintf("post:%s:%s@%s", fnKeyQ(fc.fn), lbl, rs.lbl(i)), kind: "post", guard: rs.reach, cond: f, show: sc.shows, goPost: e.expr, goPostParams: pn})
 		}
-		if c.hasAssigns && !g.lite {
+		if c.hasAssigns && !c.assumedFrame && !g.lite {
 			sc := fc.specCtxEntry()
 			keep := fmt.Sprintf("(< r %s)", fc.entryAC)
 			for _, a := range c.assigns {
@@ -931,7 +955,7 @@ func (g *gen) finishTop(fc *fnCtx) {
 				parts = append(parts, fmt.Sprintf("(= (select %s r) (select %s r))", rs.h[hk.name], fc.entryHeap[hk.name]))
 			}
 			if len(parts) > 0 {
-				g.oblige(obligation{name: fmt.Sprintf("frame:%s@ret%d", fnKeyQ(fc.fn), i+1), kind: "frame", guard: rs.reach,
+				g.oblige(obligation{name: fmt.Sprintf("frame:%s@%s", fnKeyQ(fc.fn), rs.lbl(i)), kind: "frame", guard: rs.reach,
 					cond: fmt.Sprintf("(forall ((r Int)) (=> %s %s))", keep, and(parts...))})
 			}
 		}
@@ -1108,7 +1132,7 @@ func (g *gen) ifaceObligations(fc *fnCtx) {
 				for j := 0; j < msig.Params().Len(); j++ {
 					pn = append(pn, msig.Params().At(j).Name())
 				}
-				g.oblige(obligation{name: fmt.Sprintf("iface:%s<-%s:%s@ret%d", ikey, fnKeyQ(fn), lbl, i+1), kind: "iface", guard: rs.reach, cond: f, goPost: e.expr, goPostParams: pn})
+				g.oblige(obligation{name: fmt.Sprintf("iface:%s<-%s:%s@%s", ikey, fnKeyQ(fn), lbl, rs.lbl(i)), kind: "iface", guard: rs.reach, cond: f, goPost: e.expr, goPostParams: pn})
 			}
 		}
 	}
@@ -1243,4 +1267,11 @@ func appendPhis(h *ssa.BasicBlock) map[*ssa.Phi]ssa.Value {
 		}
 	}
 	return out
+}
+
+func (rs retSite) lbl(i int) string {
+	if rs.label != "" {
+		return rs.label
+	}
+	return fmt.Sprintf("ret%d", i+1)
 }
